@@ -344,3 +344,21 @@ MUTANTS += [
  dict(id='c18-js-hand-timing', props=['C18'], file=JU, old="  return dp < 0 || (perf.length - dp) < 3;", new="  return dp < 0 || (perf.length - dp) < 2;"),
  dict(id='c18-js-parse-sep', props=['C18'], file=JU, old="  for (sep in { ':': null, ';': null }) {", new="  for (sep in { ':': null }) {"),
 ]
+
+MUTANTS += [
+ # ---- history-dependence mutants (state carried between calls) --------------------
+ dict(id='hist-sportshall-memo', props=['C11'], edits=[
+      (SP, "_DB = None\n", "_DB = None\n_memo = {}\n"),
+      (SP, "    perf = Decimal(perf)\n    ec = event_code.upper()\n", "    perf = Decimal(perf)\n    ec = event_code.upper()\n    if (ec[:1], perf) in _memo: return _memo[(ec[:1], perf)]\n"),
+      (SP, "        return score_high_event(perf, event_info, verbose=verbose)\n    else:", "        return _memo.setdefault((ec[:1], perf), score_high_event(perf, event_info, verbose=verbose))\n    else:")]),
+ dict(id='hist-athlon-esaa-inplace', props=['C01'], file=A,
+      old="""        coeffs = {
+            "gender": "M", 
+            "event_code": "800", 
+            "A": 0.232, "Z": 200.0, 
+            "X": 1.85
+        }""", new="""        coeffs.update(A=0.232, Z=200.0)"""),
+ dict(id='hist-qkids-last-table', props=['C18'], edits=[
+      (Q, "    table = _qkidsTables.get(competition_type,None)\n", "    table = _qkidsTables.get(competition_type,None) or _last.get('t')\n    _last['t'] = table\n"),
+      (Q, "def qkids_score(", "_last = {}\ndef qkids_score(")]),
+]
